@@ -271,6 +271,53 @@ func wireRT(inner http.RoundTripper) http.RoundTripper {
 	})
 }
 
+// gateRT delays the end-of-body indication of every response until the call's
+// context is done (the driver cancels it after it has taken its observations):
+// all bytes of the response, the trailer frame included, are delivered
+// promptly, only the final io.EOF is late -- as with a late chunk terminator
+// or a slow proxy. Whatever a client publishes only once the body has been
+// drained is, deterministically, too late. If a client ever turns out to wait
+// for the end of the body before it reports the final status (a legitimate
+// design), the gate opens after 2 s and is switched off for the rest of the
+// run (gateTimedOut; reported in the evidence), so it cannot raise an alarm.
+var gateTimedOut atomic.Bool
+
+type gatedBody struct {
+	r    *bytes.Reader
+	done <-chan struct{}
+}
+
+func (b *gatedBody) Read(p []byte) (int, error) {
+	if b.r.Len() > 0 {
+		return b.r.Read(p)
+	}
+	if !gateTimedOut.Load() {
+		t := time.NewTimer(2 * time.Second)
+		select {
+		case <-b.done:
+			t.Stop()
+		case <-t.C:
+			gateTimedOut.Store(true)
+		}
+	}
+	return 0, io.EOF
+}
+
+func (b *gatedBody) Close() error { return nil }
+
+func gateRT(inner http.RoundTripper) http.RoundTripper {
+	return common.RT(func(r *http.Request) (*http.Response, error) {
+		resp, err := inner.RoundTrip(r)
+		if err != nil {
+			return nil, err
+		}
+		data, _ := io.ReadAll(resp.Body)
+		resp.Body.Close()
+		resp.Body = &gatedBody{r: bytes.NewReader(data), done: r.Context().Done()}
+		return resp, nil
+	})
+}
+
 func (w *worker) conn(name string) grpc.ClientConnInterface {
 	if cc, ok := w.conns[name]; ok {
 		return cc
@@ -282,13 +329,16 @@ func (w *worker) conn(name string) grpc.ClientConnInterface {
 		ch := &inprocgrpc.Channel{}
 		ch.RegisterService(svc.Desc(), common.Impl{})
 		cc = ch
-	case "http-rec", "http-wire":
+	case "http-rec", "http-wire", "http-gate":
 		srv := httpgrpc.NewServer()
 		srv.RegisterService(svc.Desc(), common.Impl{})
 		u, _ := url.Parse("http://c03.test/")
 		rt := w.guardRT(common.HandlerRT(srv))
 		if name == "http-wire" {
 			rt = wireRT(rt)
+		}
+		if name == "http-gate" {
+			rt = gateRT(rt)
 		}
 		cc = &httpgrpc.Channel{Transport: rt, BaseURL: u}
 	case "http-net":
